@@ -110,7 +110,7 @@ VARIANTS = {
   fault('stale-opener-bounds', F(CT, 'process_emphasis', "                if bound is not None and bound > top:\n                    openers_bottom[kind] = top if top >= 0 else None\n", "                pass\n"), 'R-STACK-SIM'),
   fault('closer-not-reexamined', F(CT, 'process_emphasis', "            if not closer.open:\n                delimiters.remove(closer)\n            else:\n                curr_pos += 1", "            if not closer.open:\n                delimiters.remove(closer)\n            curr_pos += 1"), 'R-STACK-SIM'),
   fault('opener-search-ignores-stack-bottom', F(CT, 'process_emphasis', 'bottom = openers_bottom.get(closer_kind, stack_bottom)', 'bottom = openers_bottom.get(closer_kind, None)'), 'R-STACK-SIM'),
-  fault('link-text-keeps-delimiters', F(CT, 'process_emphasis', '    del delimiters[stack_bottom:]', '    del delimiters[(stack_bottom or 0) + 1:]'), 'R-STACK-SIM'),
+  fault('link-text-keeps-delimiters', F(CT, 'process_emphasis', '    del delimiters[stack_bottom:]', '    del delimiters[(stack_bottom or 0) + 1:]'), 'R-SCAN-FOLD'),
   fault('remove-keeps-prefix', F(CT, 'Delimiter.remove', 'self.type = self.type[:-n]', 'self.type = self.type[:n]'), 'R-INV-DELIM'),
   fault('remove-left-number', F(CT, 'Delimiter.remove', "            self.start = self.start + n\n            self.number = self.end - self.start\n",
                                 "            self.start = self.start + n\n            self.number = self.number - 1\n"), 'R-INV-DELIM'),
